@@ -39,6 +39,10 @@ class BudgetExceeded(BaseException):
 DEFAULT_TIMEOUT_MS = int(os.environ.get("SYMX_TIMEOUT_MS", "20000"))
 
 
+_SLOWDIR = os.environ.get("SYMX_SLOWDIR")
+_SLOWSEC = float(os.environ.get("SYMX_SLOWSEC", "5"))
+
+
 class Stats:
     def __init__(self):
         self.sat = 0
@@ -107,6 +111,14 @@ def solve(constraints, stats: Stats, timeout_ms=None, want_model=True):
         if r2 != z3.unknown:
             r, s = r2, s2
     dt = time.time() - t0
+    if _SLOWDIR and dt > _SLOWSEC:
+        try:
+            os.makedirs(_SLOWDIR, exist_ok=True)
+            with open(os.path.join(_SLOWDIR, "q_%d_%d_%s.smt2" % (os.getpid(), int(t0 * 1000) % 10 ** 9, r)), "w") as f:
+                f.write("; %.2fs %s\n" % (dt, r))
+                f.write(s.to_smt2())
+        except Exception:
+            pass
     stats.time += dt
     stats.slowest = max(stats.slowest, dt)
     if r == z3.sat:
